@@ -48,6 +48,7 @@ def main():
             obs = StandardObserver(em, model, kill_at_eval=cfg.get("kill_at_eval"))
             obs.kill_after_mid_ckpt = bool(cfg.get("kill_after_mid_ckpt"))
             obs.kill_after_stale_ckpt = bool(cfg.get("kill_after_stale_ckpt"))
+            obs.signal_at_eval = cfg.get("signal_at_eval")
             obs.install()
             if cfg.get("fs_faults"):
                 from .observe import FsFaults
